@@ -5,9 +5,10 @@ import re
 from vlib import core
 from vlib.registry import COMMON_NOTE
 
-# 0 = the pinned upstream `sample` (finding F18 present), 1 = with proposed_fixes/C18-F18.patch applied
-# bit mask: 1 = F18 max-shift (in /repo since e3725cd97), 2 = proposed_fixes/C18-F18c.patch (greedy all -Inf -> error)
-FIX = int(os.environ.get("VERIF_C18_FIX", "3"))  # bit mask: 1 = max shift (e3725cd97), 2 = greedy all -Inf error (F18c, 4a8f8bf0b)
+# Variant of the model the tree implements, as a bit mask: 1 = F18 max-shift (in /repo since e3725cd97), 2 = greedy
+# "all logits are -Inf" error (F18c, 4a8f8bf0b).  PROBED on every run by the driver on the two witness inputs
+# (c18ProbeFix -> variant.txt -> Generated/C18_Variant.lean -> Tie.C18.tree_is_fixed); VERIF_C18_FIX overrides the probe.
+FIX_OVERRIDE = os.environ.get("VERIF_C18_FIX")
 
 REGISTRATION = {
     "engine": "lean-sampler",
@@ -48,7 +49,8 @@ REGISTRATION = {
             "calls are tied by a witness number found after the fact (the model must return the same id for it).",
 }
 
-MODULES = ["OllamaVerif.Properties.C18", "OllamaVerif.Proofs.Sampler", "OllamaVerif.Model.Sampler"]
+MODULES = ["OllamaVerif.Properties.C18", "OllamaVerif.Proofs.Sampler", "OllamaVerif.Proofs.SamplerNaN", "OllamaVerif.Model.Sampler",
+           "OllamaVerif.Tie.C18"]
 THEOREMS = ["OllamaVerif.C18." + t for t in (
     "greedy_argmax", "filters_nonempty_prefix", "topK_isTopK", "topK_returns_input_tokens", "index_in_range",
     "minP_is_threshold_filter", "pick_first_index", "sample_never_panics", "sample_never_panics_fixed",
@@ -56,6 +58,12 @@ THEOREMS = ["OllamaVerif.C18." + t for t in (
     "pick_search_spec", "greedy_admissible", "hist_each_call", "unseeded_each_call", "newRng_none_iff",
     "every_call_admissible", "hist_every_call_admissible", "ghist_each_call", "maskLogits_length",
     "sample_in_topk", "isTopK_count",
+    # after the review: totality on the weighted branch, all clauses at once, top-p specification, reproducibility
+    "sample_fixed_no_allNegInf", "sample_fixed_token_or_nan", "sample_admissible_all_fixed", "isTopK_head_max",
+    "topP_spec", "topP_one", "topPBad_violates_spec", "reproducible_under_seed", "greedy_admissible_sep",
+    # the laws relativised to the NaN-free part of the carrier + instance on the carrier WITH NaN
+    "greedy_argmax_on", "greedy_admissible_on", "sample_in_topk_on", "sample_fixed_no_allNegInf_on",
+    "every_call_admissible_on", "X_not_OrdLaws", "xLawsOn", "xBeqLawOn", "Sample_totalize_greedy",
     "deterministic", "hist_nth", "Sample_indep_r", "stream_of_seed", "grammar_step_spec",
     "grammar_retry_admissible_partial", "grammar_retry_admissible_fixed_partial", "grammar_retry_greedy",
     "masked_not_neginf_accepted", "maskLogits_get", "F18_nan_instead_of_token", "F18_guard_fails",
@@ -65,6 +73,11 @@ THEOREMS = ["OllamaVerif.C18." + t for t in (
     "OllamaVerif.Sampler.hdown_heap", "OllamaVerif.Sampler.hup_heap", "OllamaVerif.Sampler.hinit_heap",
     "OllamaVerif.Sampler.hpop_heap", "OllamaVerif.Sampler.hpush_heap", "OllamaVerif.Sampler.hpopAll_spec",
     "OllamaVerif.Sampler.topKHeap_isTopK", "OllamaVerif.Sampler.topK_isTopK_all",
+    "OllamaVerif.Sampler.totalize_laws", "OllamaVerif.Sampler.totalize_beqLaw", "OllamaVerif.Sampler.topK_totalize",
+    "OllamaVerif.Sampler.greedy_totalize", "OllamaVerif.Sampler.topK_isTopK_on",
+    # Tie 1: call-site wiring (go/ast) and the variant the tree implements (probe)
+    "OllamaVerif.Tie.C18.callsites_wired", "OllamaVerif.Tie.C18.tree_request_sampler",
+    "OllamaVerif.Tie.C18.tree_is_fixed", "OllamaVerif.Tie.C18.treeSample_eq", "OllamaVerif.Tie.C18.tree_no_spurious_allNegInf",
 ]
 OVERLAY = {"sample/zz_verif_c18_test.go": "sample/zz_verif_c18_test.go",
            "sample/zz_verif_c18_grammar_test.go": "sample/zz_verif_c18_grammar_test.go"}
@@ -134,12 +147,57 @@ def coverage_required(ctx):
                       + ", ".join(missing), no_input=True)
 
 
+def regenerate_callsites(ctx):
+    """Tie 1: every non-test call of sample.NewSampler, argument roles resolved by go/ast (harness/cmd/c18facts)."""
+    import subprocess
+    env = dict(os.environ)
+    env.update({"C18_REPO": core.REPO, "GOFLAGS": "-mod=mod", "GOPROXY": "off"})
+    p = subprocess.run(["go", "run", os.path.join(core.ROOT, "harness", "cmd", "c18facts", "main.go")],
+                       cwd="/", env=env, stdout=subprocess.PIPE, stderr=subprocess.STDOUT, text=True)
+    rows, sites = [], []
+    if p.returncode == 0:
+        for m in re.finditer(r"^site (\S+) args=(\S*) nargs=(\d+) owner=(\w+)$", p.stdout, re.M):
+            args = [a for a in m.group(2).split(",") if a]
+            q = lambda x: '"' + x.replace("\\", "\\\\").replace('"', '\\"') + '"'
+            rows.append("(%s, [%s], %s, %s)" % (q(m.group(1)), ", ".join(q(a) for a in args), m.group(3), q(m.group(4))))
+            sites.append(m.group(0))
+    ctx.coverage["newsampler_call_sites"] = sites if p.returncode == 0 else ["extractor failed: " + p.stdout[-300:]]
+    body = ("-- REGENERATED on every run by vlib/checks/c18.py (harness/cmd/c18facts, go/ast) from the tree under test. Do not edit.\n"
+            "namespace OllamaVerif.Generated.C18\n"
+            "/-- every `sample.NewSampler(...)` call outside tests: (file:func, option field carried by argument 1..5,\n"
+            "    number of arguments, owner of the result) -/\n"
+            "def callSites : List (String × List String × Nat × String) :=\n  [" + ",\n   ".join(rows) + "]\n"
+            "end OllamaVerif.Generated.C18\n")
+    core.write_generated("OllamaVerif/Generated/C18_CallSites.lean", body)
+
+
+def regenerate_variant(ctx, outdir):
+    """Tie 1: the variant the tree implements, probed by the driver on the F18 / F18c witness inputs."""
+    probed = None
+    try:
+        m = re.search(r"probed=(\d+)", open(os.path.join(outdir, "variant.txt")).read())
+        probed = int(m.group(1)) if m else None
+    except OSError:
+        pass
+    ctx.coverage["variant_probed"] = probed
+    b = lambda x: "true" if x else "false"
+    body = ("-- REGENERATED on every run by vlib/checks/c18.py from the driver's probe of the tree under test (c18ProbeFix). Do not edit.\n"
+            "namespace OllamaVerif.Generated.C18\n"
+            "/-- the tree shifts by the largest logit before scaling (F18 repaired, e3725cd97) -/\n"
+            "def fixShift : Bool := " + b(probed is not None and probed & 1) + "\n"
+            "/-- the tree's greedy branch reports \"all logits are -Inf\" (F18c repaired, 4a8f8bf0b) -/\n"
+            "def fixGreedyErr : Bool := " + b(probed is not None and probed & 2) + "\n"
+            "end OllamaVerif.Generated.C18\n")
+    core.write_generated("OllamaVerif/Generated/C18_Variant.lean", body)
+
+
 def run(ctx):
     ctx.oracle = big_stack_oracle(ctx)
-    ctx.lean_check(MODULES, THEOREMS)
+    regenerate_callsites(ctx)
     env = {"VERIF_N": ctx.scale(1500, 30000), "VERIF_NG": ctx.scale(250, 5000), "VERIF_NL": ctx.scale(1, 4),
-           "VERIF_C18_FIX": FIX,
            "VERIF_CORPUS": core.ROOT + "/corpus/C18"}
+    if FIX_OVERRIDE:
+        env["VERIF_C18_FIX"] = FIX_OVERRIDE
     if ctx.replay:
         env["VERIF_REPLAY"] = ctx.replay_line_file()
     rc, out, outdir = ctx.go_test("./sample/", OVERLAY, "^TestVerifC18$", env=env)
@@ -151,6 +209,9 @@ def run(ctx):
                           "the test process died inside Sample on this grammar history: " + out[-600:].replace("\n", " "))
         else:
             ctx.violation("driver-failed", "", out[-1500:], no_input=True)
+    # the variant fact comes out of the run itself; the theorems (Tie.C18.tree_is_fixed included) are checked after it
+    regenerate_variant(ctx, outdir)
+    ctx.lean_check(MODULES, THEOREMS)
     ctx.read_stats(outdir)
     if not ctx.replay:
         coverage_required(ctx)
@@ -163,6 +224,14 @@ def run(ctx):
         "IEEE-754 single precision comparison is a strict weak order on non-NaN values (the theorems' carrier law); "
         "the per-run contracts (scale/softmax order preservation, -Inf->0, max->positive, monotone cumulative sums, "
         "r*total<=total) are evaluated on the bit patterns of every sampled run, not proved",
+        "the law-dependent theorems are instantiable on a carrier with NaN only in their `_on` form (relativised laws + "
+        "guard noNaN logits): done for greedy / topK / top-k counting / totality / every call of a history; the "
+        "arithmetic `_partial` theorems (never -Inf, membership in minP(topP(..))) still take the total laws, i.e. they "
+        "speak about runs in which no NaN is ever compared, which the per-run contracts (no NaN among scaled values and "
+        "probabilities) check but the statements do not say",
+        "reproducibility is claimed modulo the order slices.SortFunc (pdqsort) gives tokens with EQUAL logits when more "
+        "than 12 candidates are sorted (top-k off): not modelled, compared modulo that order; one Sampler is used by one "
+        "goroutine (the runner gives every sequence its own, Tie.C18.callsites_wired)",
         "math.Exp is not modelled: the oracle uses the values the run produced",
         "llama.cpp grammar state machine not modelled: accepted id sets are probed from the real grammar per call",
     ]
